@@ -29,6 +29,7 @@ struct Fatal {};
 struct Rep { int sev; std::string file; unsigned long line; std::string msg; long t; };
 struct Cl { int k, s, i, r; };
 struct Hook { std::string name; long ticket; int held; long shared; };
+struct TrRec { int t; std::string file; unsigned long line; std::string msg; };
 
 // per-thread recording state
 struct TL {
@@ -37,6 +38,7 @@ struct TL {
   std::vector<Cl> cls;
   std::vector<long> tickets;
   std::vector<Hook> hooks;
+  std::vector<TrRec> trs;
   std::vector<std::string> out;
   int tid = 0;
   unsigned rng = 1;
@@ -134,7 +136,11 @@ static void emit(char const* op, std::vector<int> const& a, int acc, int ret, st
       << ",\"t\":" << tl.reps[i].t << ",\"msg\":\"" << jesc(tl.reps[i].msg) << "\"}";
   o << "],\"oks\":[";
   for (size_t i = 0; i < tl.oks.size(); ++i) o << (i ? "," : "") << "{\"r\":1,\"msg\":\"" << jesc(tl.oks[i]) << "\"}";
-  o << "],\"trs\":[],\"probe\":[],\"cl\":[";
+  o << "],\"trs\":[";
+  for (size_t i = 0; i < tl.trs.size(); ++i)
+    o << (i ? "," : "") << "{\"t\":" << tl.trs[i].t << ",\"file\":\"" << jesc(base(tl.trs[i].file)) << "\",\"line\":" << tl.trs[i].line
+      << ",\"msg\":\"" << jesc(tl.trs[i].msg) << "\"}";
+  o << "],\"probe\":[],\"cl\":[";
   for (size_t i = 0; i < tl.cls.size(); ++i) o << (i ? "," : "") << "[" << tl.cls[i].k << "," << tl.cls[i].s << "," << tl.cls[i].i << "," << tl.cls[i].r << "]";
   o << "],\"tickets\":[";
   for (size_t i = 0; i < tl.tickets.size(); ++i) o << (i ? "," : "") << tl.tickets[i];
@@ -143,7 +149,7 @@ static void emit(char const* op, std::vector<int> const& a, int acc, int ret, st
     o << (i ? "," : "") << "{\"n\":\"" << tl.hooks[i].name << "\",\"t\":" << tl.hooks[i].ticket << ",\"held\":" << tl.hooks[i].held << ",\"sh\":" << tl.hooks[i].shared << "}";
   o << "]}";
   tl.out.push_back(o.str());
-  tl.reps.clear(); tl.oks.clear(); tl.cls.clear(); tl.tickets.clear(); tl.hooks.clear();
+  tl.reps.clear(); tl.oks.clear(); tl.cls.clear(); tl.tickets.clear(); tl.hooks.clear(); tl.trs.clear();
 }
 
 static bool okm(int m) { return m >= 0 && m < NMOCK; }
@@ -151,6 +157,15 @@ static bool oksl(int s) { return s >= 1 && s <= NSLOT; }
 static bool okq(int q) { return q >= 1 && q <= NSEQ; }
 static bool oko(int o) { return o >= 1 && o <= NOBJ; }
 static bool okk(int k) { return k >= 1 && k <= NMON; }
+
+// a tracer is installed by the main thread before the worker threads exist (and removed after they are joined): every
+// accepted call, on whichever thread, must deliver its record to it
+struct Tr : trompeloeil::tracer {
+  int id;
+  explicit Tr(int i) : id(i) {}
+  void trace(char const* file, unsigned long line, std::string const& call) override { tl.trs.push_back({id, file ? file : "", line, call}); }
+};
+static std::unique_ptr<Tr> g_tracer;
 
 static void run_op(std::string const& line)
 {
@@ -161,6 +176,8 @@ static void run_op(std::string const& line)
   int acc = 1, ret = 0, q1 = -1, q2 = -1; std::string thr; bool skip = false;
   try {
     if (op == "mock") { if (A(0) == NM_ID && !nmock) nmock = std::make_unique<MockN>(); else if (okm(A(0)) && !mocks[A(0)]) mocks[A(0)] = std::make_unique<Mock>(); else skip = true; }
+    else if (op == "tracer") { if (!g_tracer) g_tracer = std::make_unique<Tr>(A(0)); else skip = true; }
+    else if (op == "dtracer") { if (g_tracer) g_tracer.reset(); else skip = true; }
     else if (op == "seq") { if (okq(A(0)) && !seqs[A(0)]) seqs[A(0)] = std::make_unique<trompeloeil::sequence>(); else skip = true; }
     else if (op == "obj") { if (oko(A(0)) && !objs[A(0)]) objs[A(0)] = std::make_unique<DW>(); else skip = true; }
     else if (op == "expect") {
@@ -263,7 +280,7 @@ static int run_segment(Seg const& sg, unsigned seed)
     o << "]}\n";
     std::fputs(o.str().c_str(), out);
   }
-  tl.reps.clear(); tl.oks.clear(); tl.cls.clear(); tl.tickets.clear(); tl.hooks.clear();
+  tl.reps.clear(); tl.oks.clear(); tl.cls.clear(); tl.tickets.clear(); tl.hooks.clear(); tl.trs.clear();
   // quiet tear-down
   trompeloeil::set_reporter([](trompeloeil::severity, char const*, unsigned long, std::string const&) {});
   for (int s = 1; s <= NSLOT; ++s) exps[s].reset();
@@ -272,6 +289,7 @@ static int run_segment(Seg const& sg, unsigned seed)
   for (int m = 0; m < NMOCK; ++m) mocks[m].reset();
   nmock.reset();
   for (int q = 1; q <= NSEQ; ++q) seqs[q].reset();
+  g_tracer.reset();
   std::fputs("{\"e\":\"fin\"}\n", out);
   std::fflush(out);
   return 0;
